@@ -15,7 +15,23 @@ func (et *EpochTimers) VerifDump() string {
 	et.m.Lock()
 	defer et.m.Unlock()
 	var b strings.Builder
-	verifDump(&b, reflect.ValueOf(et).Elem(), 0)
+	// legacy prefix "e:<next tick>/<done>" (parsed by C38): the last top-level unsigned field and
+	// the first top-level boolean of the epoch timer
+	v := reflect.ValueOf(et).Elem()
+	var next uint64
+	var done, haveDone bool
+	for i := 0; i < v.NumField(); i++ {
+		switch f := v.Field(i); f.Kind() {
+		case reflect.Uint64:
+			next = f.Uint()
+		case reflect.Bool:
+			if !haveDone {
+				done, haveDone = f.Bool(), true
+			}
+		}
+	}
+	fmt.Fprintf(&b, "e:%d/%t ", next, done)
+	verifDump(&b, v, 0)
 	return b.String()
 }
 
